@@ -60,7 +60,7 @@ def run_ep(ep: str, script: str, args: list[str], cwd: str, ioenc: str = "utf-8"
 
 KINDS = ["root-ok", "deleg-ok", "root-skip", "root-replay", "root-unsigned", "root-foreign", "root-raw-sigs", "deleg-unsigned",
          "deleg-foreign", "unknown-role", "type-mismatch", "malformed-untrusted", "malformed-trusted", "not-json", "missing-untrusted", "missing-trusted",
-         "no-type", "payload-not-md", "root-junk-sig", "deleg-gpg-sigs", "deleg-ok-unicode-role"]
+         "no-type", "payload-not-md", "root-junk-sig", "deleg-gpg-sigs", "deleg-ok-unicode-role", "nonroot-trusted-vs-root-offer"]
 
 
 def verify_pairs(rng, n):
@@ -92,6 +92,12 @@ def verify_pairs(rng, n):
                 gen.sign_env(u, km, False)
             if kind == "deleg-foreign":
                 gen.sign_env(u, [gen.key(7)] if gen.key(7) not in km else [gen.key(6)], False)
+        elif kind == "nonroot-trusted-vs-root-offer":
+            # a root file offered against trusted metadata that is not root metadata but does delegate a role called "root" to the signers:
+            # the root-chain check applies (and fails), not the plain delegation check
+            t = gen.envelope(gen.delegating_md("key_mgr", {"root": gen.delegation(ks, thr), "pkg_mgr": gen.delegation(km, 1)}, version=1))
+            u = gen.envelope(gen.root_md(ks, thr, km, 1, version=rng.choice([1, 2])))
+            gen.sign_env(u, ks, False)       # raw signatures: what a plain delegation check would be satisfied with
         elif kind == "deleg-gpg-sigs":
             # non-root metadata carrying only OpenPGP-mode signatures by the authorized keys: the library's delegation check (raw mode) rejects it
             u = gen.envelope(gen.delegating_md("key_mgr", {"pkg_mgr": gen.delegation([gen.key(9)], 1)}))
